@@ -194,6 +194,14 @@ def respond (s : Srv) (tok : Token) (r : Response) : Srv × RespondResult × Lis
       ({ s with conns := replaceClient s.conns { c2 with inflight := c2.inflight - 1 }, outstanding := outstanding' },
        .ok, eff)
 
+/-- `HttpServer::enqueue_responses`: `respond` each in turn, stopping at the first error (`?`) -/
+def respondMany : Srv → List (Token × Response) → Srv × RespondResult
+  | s, [] => (s, .ok)
+  | s, (tok, r) :: rest =>
+    match respond s tok r with
+    | (s', .ok, _) => respondMany s' rest
+    | (s', .underflow, _) => (s', .underflow)
+
 /-- the `while state == AwaitingOutgoing { write() }` loop of `flush_outgoing_writes` for one
     connection, given the results of its successive `write` calls -/
 def flushClient : Client → List SinkStep → Client × List Byte
